@@ -20,6 +20,7 @@ import (
 	"verifh/internal/l2"
 	"verifh/internal/model"
 	"verifh/internal/obs"
+	"verifh/internal/sess"
 )
 
 func TestMain(m *testing.M) {
@@ -65,6 +66,9 @@ type Case struct {
 	// sending until the server's writer is blocked by HTTP/2 flow control, then goes away.
 	Net   bool `json:"net,omitempty"`
 	Flood int  `json:"flood,omitempty"`
+	// InFlight (replaces everything above): clients of idle sessions go away while an operation
+	// of the primary is in flight and other sessions announce election ids (package sess)
+	InFlight *sess.InFlight `json:"inflight,omitempty"`
 }
 
 func setup() {
@@ -546,6 +550,9 @@ func (r *runner) getFault(fi int, f Fault) bool {
 }
 
 func runCase(c Case) *ev.Verdict {
+	if c.InFlight != nil {
+		return sess.RunInFlight(c.InFlight, "C10")
+	}
 	v := &ev.Verdict{}
 	r := &runner{c: c, v: v, s: drive.NewSrv(false, hgen.NIs[1:]), belief: model.New("DEFAULT", hgen.NIs[1:], false)}
 	if c.Net {
@@ -774,6 +781,29 @@ func TestCampaign(t *testing.T) {
 			col.Check(rt, ev.JSON(c), v)
 		})
 	})
+	t.Run("disconnect-during-a-hand-over", func(t *testing.T) {
+		// the primary's request is stopped inside an operation (post-change hook); other sessions
+		// announce election ids and the clients of idle sessions go away meanwhile; then the
+		// operation is released: the election must end as the announcements say, everybody must
+		// be answered and the primary's probe operation programmed
+		rapid.Check(t, func(rt *rapid.T) {
+			if rapid.IntRange(0, 1).Draw(rt, "run?") != 0 {
+				return
+			}
+			f := sess.DrawInFlight(rt)
+			gone := false
+			for _, a := range f.Ann {
+				gone = gone || a.Gone
+			}
+			if !gone {
+				at := rapid.IntRange(0, len(f.Ann)).Draw(rt, "gone-at")
+				f.Ann = append(f.Ann[:at:at], append([]sess.Ann{{Gone: true}}, f.Ann[at:]...)...)
+			}
+			c := Case{InFlight: f}
+			v := runCase(c)
+			col.Check(rt, ev.JSON(c), v)
+		})
+	})
 	t.Run("fault-sequences", func(t *testing.T) {
 		rapid.Check(t, func(rt *rapid.T) {
 			c := Case{H: drawHistory(rt), Batch: rapid.IntRange(1, 5).Draw(rt, "batch")}
@@ -804,6 +834,9 @@ func minimize(sig string, cs []byte) []byte {
 	var c Case
 	if err := json.Unmarshal(cs, &c); err != nil {
 		return nil
+	}
+	if c.InFlight != nil {
+		return cs
 	}
 	fails := func(h hgen.History) bool {
 		cc := c
